@@ -53,8 +53,16 @@ def main():
     res = []
     for b in P.get("mean_acc", []):
         xx = np.array(b["xx"], dtype=b["dtype"])
-        da = xr.DataArray(xx, dims=("y", "x", "time"), attrs={"nodata": b["nd"]})
-        r = da.hdc.algo.mean_grp(np.array(b["grp"], dtype="int16"))
+        if b.get("kw"):           # nodata handed over as a keyword; the attribute is absent or says something else
+            da = xr.DataArray(xx, dims=("y", "x", "time"), attrs={} if b["kw"] == "noattr" else {"nodata": -9999 if b["nd"] != -9999 else 255})
+            try:
+                r = da.hdc.algo.mean_grp(np.array(b["grp"], dtype="int16"), nodata=b["nd"])
+            except Exception as e:  # noqa
+                res.append(dict(error="%s: %s" % (type(e).__name__, e)))
+                continue
+        else:
+            da = xr.DataArray(xx, dims=("y", "x", "time"), attrs={"nodata": b["nd"]})
+            r = da.hdc.algo.mean_grp(np.array(b["grp"], dtype="int16"))
         res.append(dict(dtype=str(r.dtype), dims=list(r.dims), out=r.values.astype("float64").tolist()))
     out["mean_acc"] = res
     print("@@RESULT@@" + json.dumps(out))
